@@ -722,3 +722,60 @@ theorem splitOnChar_prefix (a : Str) (ha : ∀ c ∈ a, c ≠ ':') : ∀ (pre : 
     simp [h1]
 
 end Pyxv.Binds
+
+namespace Pyxv.Binds
+open Pyxv
+
+/-! ### the row loop is a fold whose only carried state is the row number and `table_list` -/
+
+theorem processRows_frame (dl : Str) (key : List (Str × List Str)) (lists : List Str) :
+    ∀ (pre : List (List (Str × Str))) (n : Nat) (tl : TL) (c : List (Str × Str)) (post : List (List (Str × Str)))
+      (ks : List RK), processRows dl key lists n tl (pre ++ c :: post) = .ok ks →
+    ∃ kpre kc kpost tl1 tl2, rowRKs dl key lists (n + pre.length) tl1 c = .ok (kc, tl2) ∧
+      ks = kpre ++ kc ++ kpost ∧
+      ∀ c' kc', rowRKs dl key lists (n + pre.length) tl1 c' = .ok (kc', tl2) →
+        processRows dl key lists n tl (pre ++ c' :: post) = .ok (kpre ++ kc' ++ kpost) := by
+  intro pre
+  induction pre with
+  | nil =>
+    intro n tl c post ks h
+    simp only [List.nil_append] at h
+    unfold processRows at h
+    split at h
+    · cases h
+    · next kc tl2 hc =>
+      split at h
+      · next kpost hp =>
+        simp only [Except.ok.injEq] at h
+        refine ⟨[], kc, kpost, tl, tl2, by simpa using hc, by simp [h], ?_⟩
+        intro c' kc' hc'
+        simp only [List.length_nil, Nat.add_zero] at hc'
+        simp only [List.nil_append]
+        unfold processRows
+        rw [hc']
+        simp only [hp]
+      · cases h
+  | cons x pre ih =>
+    intro n tl c post ks h
+    simp only [List.cons_append] at h
+    unfold processRows at h
+    split at h
+    · cases h
+    · next kx tlx hx =>
+      split at h
+      · next ks1 h1 =>
+        simp only [Except.ok.injEq] at h
+        obtain ⟨kpre, kc, kpost, tl1, tl2, hc, hk, hall⟩ := ih (n + 1) tlx c post ks1 h1
+        have e : n + 1 + pre.length = n + (x :: pre).length := by simp only [List.length_cons]; omega
+        rw [e] at hc
+        refine ⟨kx ++ kpre, kc, kpost, tl1, tl2, hc, by rw [← h, hk]; simp, ?_⟩
+        intro c' kc' hc'
+        rw [← e] at hc'
+        have := hall c' kc' hc'
+        simp only [List.cons_append]
+        unfold processRows
+        rw [hx]
+        simp only [this, List.append_assoc]
+      · cases h
+
+end Pyxv.Binds
